@@ -43,21 +43,21 @@ Qed.
 
 (* refactor.Template with a transformation that reports "unchanged" returns the template verbatim *)
 Theorem identity_verbatim_stmt : forall (isln : N -> bool) (lower : N -> N) (printable : N -> bool) tops s,
-  isln 0 = false -> nulfree s ->
+  isln 0 = false -> isln 46 = false -> nulfree s ->
   exists errs inside,
     refactor_template isln lower printable (fun _ => None) tops s = Ok (s, errs, inside).
-Proof. intros isln lower printable tops s H0 Hn. exact (refactor_unchanged_verbatim isln lower H0 printable tops s Hn). Qed.
+Proof. intros isln lower printable tops s H0 Hd Hn. exact (refactor_unchanged_verbatim isln lower H0 Hd printable tops s Hn). Qed.
 
 (* ContextRefRename changes exactly the matching free references *)
 Theorem rename_exact_stmt : forall (is_from : ExSyntax.text -> bool) (to : ExSyntax.text) e,
   frefs is_from (rename is_from to e) = map (fun n => if is_from n then to else n) (frefs is_from e)
   /\ brefs is_from (rename is_from to e) = brefs is_from e
   /\ erase (rename is_from to e) = erase e
-  /\ (existsb is_from (frefs is_from e) = false -> rename is_from to e = e /\ rename_tx is_from to e = None).
+  /\ (existsb is_from (frefs is_from e) = false -> rename is_from to e = e).
 Proof.
   intros is_from to e. destruct (rename_exact is_from to e) as (H1 & H2 & H3).
   split; [exact H1|]. split; [exact H2|]. split; [exact H3|].
-  intros H. split; [apply rename_no_match; exact H|]. unfold rename_tx. rewrite H. reflexivity.
+  intros H. apply rename_no_match; exact H.
 Qed.
 
 (* the normalised tree evaluates like the original (fragment of model/ExTemplate.v) *)
@@ -201,3 +201,43 @@ Example source_conditions_witness :
   /\ refs_ok s_lower r_t1 = false       (* the Cherokee name *)
   /\ texts_ok r_t2 = false.             (* the value ending in a backslash *)
 Proof. repeat split; try (vm_compute; reflexivity). vm_compute. discriminate. Qed.
+
+(* ---------------------------------------------------------------------------------------------- *)
+(* ContextRefRename as a whole (proofs/ExAvoid.v): the renaming of c11_rename_exact, preceded by the step that keeps a
+   renamed reference from being captured by a parameter named like the replacement *)
+From Verif Require Import proofs.ExAvoid.
+
+Theorem rename_tx_stmt : forall (lower : N -> N) (from to : ExSyntax.text) e,
+  let isf := is_from lower from in
+  let e1 := avoid lower from to (target_names lower to) (used_names lower e) e in
+  (existsb isf (frefs isf e) = false -> rename_tx lower from to e = None)
+  /\ (existsb isf (frefs isf e) = true -> rename_tx lower from to e = Some (rename isf to e1))
+  /\ ((forall m, In m (target_names lower to) -> captures lower from m false e = false) -> e1 = e).
+Proof.
+  intros lower from to e isf e1. unfold rename_tx, rename_full. fold isf. fold e1.
+  split; [intros ->; reflexivity|]. split; [intros ->; reflexivity|].
+  intros H. apply avoid_id. exact H.
+Qed.
+
+Theorem rename_avoids_capture_stmt : forall (lower : N -> N) (from to : ExSyntax.text) e,
+  (forall c, lower (lower c) = lower c) -> lower 95 = 95 ->
+  forall m, In m (target_names lower to) ->
+    captures lower from m false (avoid lower from to (target_names lower to) (used_names lower e) e) = false.
+Proof. intros lower from to e H1 H2. exact (rename_full_no_capture lower H1 H2 from to e). Qed.
+
+(* the input of hunt finding C11/1:  foreach(array(1, 2), (bar) => foo & bar)  with foo renamed to bar: the parameter
+   would capture the renamed reference; it becomes bar_ and the tree prints as
+   foreach(array(1, 2), (bar_) => bar & bar_) *)
+Definition c_inp : ExSyntax.text :=
+  [102; 111; 114; 101; 97; 99; 104; 40; 97; 114; 114; 97; 121; 40; 49; 44; 32; 50; 41; 44; 32; 40; 98; 97; 114; 41; 32; 61; 62; 32;
+   102; 111; 111; 32; 38; 32; 98; 97; 114; 41].
+Definition c_t : expr := Eval vm_compute in tree_or_null (parse_tokens (toks_or_nil (lex c_inp))).
+Definition c_out : ExSyntax.text :=
+  [102; 111; 114; 101; 97; 99; 104; 40; 97; 114; 114; 97; 121; 40; 49; 44; 32; 50; 41; 44; 32; 40; 98; 97; 114; 95; 41; 32; 61; 62; 32;
+   98; 97; 114; 32; 38; 32; 98; 97; 114; 95; 41].
+
+Example rename_capture_witness :
+  c_t <> ENull
+  /\ captures s_lower [102; 111; 111] [98; 97; 114] false c_t = true
+  /\ option_map (print s_lower (fun _ => true)) (rename_tx s_lower [102; 111; 111] [98; 97; 114] c_t) = Some c_out.
+Proof. split; [vm_compute; discriminate|]. split; vm_compute; reflexivity. Qed.
